@@ -57,6 +57,37 @@ def int_l2_cost():
     return IntL2Cost()
 
 
+def scaled_int_l2_cost(param=None, scale=3):
+    """User-defined cost WITH A HYPER-PARAMETER besides `param`: scale * len * (sum of squares around the optimal
+    or the fixed integer mean).  Adapters that rebuild or clone the cost must carry `scale` along."""
+    from skchange.costs.base import BaseCost
+
+    class ScaledIntL2Cost(BaseCost):
+        def __init__(self, param=None, scale=1):
+            self.scale = scale
+            super().__init__(param)
+
+        def _fit(self, X, y=None):
+            self.X_ = np.asarray(X, dtype=float).reshape(len(X), -1)
+            return self
+
+        def _evaluate_optim_param(self, starts, ends):
+            out = np.zeros((len(starts), self.X_.shape[1]))
+            for i, (s, e) in enumerate(zip(starts, ends)):
+                seg = self.X_[s:e]
+                out[i] = self.scale * (len(seg) * (seg ** 2).sum(axis=0) - seg.sum(axis=0) ** 2)
+            return out
+
+        def _evaluate_fixed_param(self, starts, ends):
+            out = np.zeros((len(starts), self.X_.shape[1]))
+            for i, (s, e) in enumerate(zip(starts, ends)):
+                seg = self.X_[s:e]
+                out[i] = self.scale * len(seg) * ((seg - self.param) ** 2).sum(axis=0)
+            return out
+
+    return ScaledIntL2Cost(param=param, scale=scale)
+
+
 def replay_case(case):
     import warnings
 
@@ -183,6 +214,40 @@ def replay_case(case):
             if [float(v) for v in row] != [float(w) for w in want]:
                 fails.append(("score_differs_from_cost_difference", {"scorer": "ChangeScore(IntL2Cost)", "cut": list(cut),
                                                                      "got": row.tolist(), "definition": want}))
+    # ---- user-defined cost with a hyper-parameter besides `param` (scale = 3) through all three adapters
+    lr3 = lambda s_: [3 * (s_["len"] * s_["s2"][j][j] - s_["s1"][j] ** 2) for j in range(p)]
+    fx3 = lambda s_, mu: [3 * s_["len"] * (s_["s2"][j][j] - 2 * mu * s_["s1"][j] + s_["len"] * mu * mu) for j in range(p)]
+    ivs = [(s, e) for s in range(n) for e in range(s + 1, n + 1)]
+    try:
+        vals = Saving(scaled_int_l2_cost(param=1, scale=3)).fit(X).evaluate(np.array(ivs))
+        for iv, row in zip(ivs, vals):
+            want = [a - b for a, b in zip(fx3(st(*iv), 1), lr3(st(*iv)))]
+            if [float(v) for v in row] != [float(w) for w in want]:
+                fails.append(("score_differs_from_cost_difference", {"scorer": "Saving(ScaledIntL2Cost(1, scale=3))", "cut": list(iv),
+                                                                     "got": row.tolist(), "definition": want}))
+                break
+        c3 = [(s, k, e) for s in range(n) for k in range(s + 1, n) for e in range(k + 1, n + 1)]
+        if c3:
+            vals = ChangeScore(scaled_int_l2_cost(scale=3)).fit(X).evaluate(np.array(c3))
+            for cut, row in zip(c3, vals):
+                s, k, e = cut
+                want = [x - y - z for x, y, z in zip(lr3(st(s, e)), lr3(st(s, k)), lr3(st(k, e)))]
+                if [float(v) for v in row] != [float(w) for w in want]:
+                    fails.append(("score_differs_from_cost_difference", {"scorer": "ChangeScore(ScaledIntL2Cost(scale=3))", "cut": list(cut),
+                                                                         "got": row.tolist(), "definition": want}))
+                    break
+        if cuts:
+            vals = LocalAnomalyScore(scaled_int_l2_cost(scale=3)).fit(X).evaluate(np.array(cuts))
+            for cut, row in zip(cuts, vals):
+                s, a, b, e = cut
+                pooled = add_stats(st(s, a), st(b, e))
+                want = [x - y - z for x, y, z in zip(lr3(st(s, e)), lr3(st(a, b)), lr3(pooled))]
+                if [float(v) for v in row] != [float(w) for w in want]:
+                    fails.append(("score_differs_from_cost_difference", {"scorer": "LocalAnomalyScore(ScaledIntL2Cost(scale=3))", "cut": list(cut),
+                                                                         "got": row.tolist(), "definition": want}))
+                    break
+    except Exception as e:
+        fails.append(("raises", {"scorer": "adapter(ScaledIntL2Cost)", "error": repr(e)[:200]}))
     # ---- pass-through constructors
     cs, sv, lo = CUSUM(), L2Saving(), LocalAnomalyScore(by["L2Cost()"][1]())
     if to_change_score(cs) is not cs or to_saving(sv) is not sv or to_local_anomaly_score(lo) is not lo:
@@ -202,7 +267,7 @@ def run(tier: str) -> int:
     chk = Check(PROP, tier)
     chk.rule = ("stage A/B: every integer matrix with entries -1..2 (or -1..1) of the listed shapes x ALL admissible 3- and "
                 "4-point cuts x {ChangeScore, Saving, LocalAnomalyScore} over 8-11 built-in cost kinds and a user-defined "
-                "integer cost, plus CUSUM and L2Saving; stage C: seeded lattice data n<=9.  A case is one matrix; "
+                "integer cost and one with an extra hyper-parameter, plus CUSUM and L2Saving; stage C: seeded lattice data n<=9.  A case is one matrix; "
                 "non-trivial = not all rows equal; distinct by hash of the matrix.")
     chk.assumptions = ["TLC/SANY and the Json module", "math.log applied to TLC's exact arguments", "tolerance 1e-8 relative",
                        "slices with an exactly singular covariance are excluded from the identities (C01 judges them)"]
